@@ -339,6 +339,7 @@ func (nfs *Nfs) NFSPROC3_WRITE(args nfstypes.WRITE3args) nfstypes.WRITE3res {
 		reply.Status = nfstypes.NFS3_OK
 		reply.Resok.Count = nfstypes.Count3(count)
 		reply.Resok.Committed = args.Stable
+		reply.Resok.Verf = nfs.verf
 		reply.Resok.File_wcc.After.Attributes_follow = true
 		reply.Resok.File_wcc.After.Attributes = fattr
 	} else {
@@ -895,6 +896,7 @@ func (nfs *Nfs) NFSPROC3_COMMIT(args nfstypes.COMMIT3args) nfstypes.COMMIT3res {
 	ok := op.CommitFh()
 	if ok {
 		reply.Status = nfstypes.NFS3_OK
+		reply.Resok.Verf = nfs.verf
 	} else {
 		errRet(op, &reply.Status, nfstypes.NFS3ERR_IO)
 	}
